@@ -61,8 +61,8 @@ class SymT:
 
     nelement = numel
 
-    def nbytes(self) -> int:
-        return self.numel() * self.dtype.itemsize
+    nbytes = property(lambda self: self.numel() * self.dtype.itemsize)  # an attribute in torch, like itemsize
+    itemsize = property(lambda self: self.dtype.itemsize)
 
     def size(self, dim: int | None = None):
         return self._shape if dim is None else self._shape[dim]
@@ -74,10 +74,10 @@ class SymT:
         return self.dtype.itemsize
 
     def key(self) -> tuple:
-        return ("T", self.storage, self.offset, self.nbytes(), self.dtype.name, self._shape)
+        return ("T", self.storage, self.offset, self.nbytes, self.dtype.name, self._shape)
 
     def __repr__(self) -> str:
-        return f"<storage{self.storage}[{self.offset}:{self.offset + self.nbytes()}] {self.dtype.name}{list(self._shape)}>"
+        return f"<storage{self.storage}[{self.offset}:{self.offset + self.nbytes}] {self.dtype.name}{list(self._shape)}>"
 
     # ---- views
     def _sub(self, elem_off: int, shape: tuple[int, ...]) -> "SymT":
@@ -105,9 +105,9 @@ class SymT:
     def view(self, *args):
         if len(args) == 1 and isinstance(args[0], DType):
             d = args[0]
-            if len(self._shape) != 1 or self.nbytes() % d.itemsize:
+            if len(self._shape) != 1 or self.nbytes % d.itemsize:
                 raise Raised("RuntimeError", None)
-            return SymT(self.world, self.storage, self.offset, (self.nbytes() // d.itemsize,), d, self.device)
+            return SymT(self.world, self.storage, self.offset, (self.nbytes // d.itemsize,), d, self.device)
         shape = tuple(args[0]) if len(args) == 1 and isinstance(args[0], (tuple, list)) else tuple(args)
         if any(not isinstance(x, int) for x in shape):
             raise Unsupported("view shape")
